@@ -33,7 +33,7 @@ type Engine struct {
 	Props   []string
 	New     func() Executor
 	Gen     func(r *lib.Rng, n int, do func(lib.M) any)
-	Monitor func(r *lib.Rng, n int, report func(lib.Violation))
+	Monitor func(r *lib.Rng, n int, report func(Violation))
 }
 
 var Engines []Engine
@@ -129,4 +129,15 @@ func Strs(in lib.M, k string) []string {
 		return out
 	}
 	return nil
+}
+
+// Violation is a property-level failure found by a monitor on the implementation.  Key is a stable
+// failure-class id matched against known_findings.json; Requests replays the history.
+type Violation struct {
+	Property string  `json:"property"`
+	Key      string  `json:"key,omitempty"`
+	What     string  `json:"what"`
+	Input    any     `json:"input"`
+	Observed any     `json:"observed"`
+	Requests []lib.M `json:"requests,omitempty"`
 }
